@@ -389,11 +389,14 @@ func checkC18(ca *checkArgs) int {
 	}
 	// evidence
 	var unreached []string
-	if pb.stats["gate_blocks"] == 0 {
-		unreached = append(unreached, "a task attempted first use while another task was inside the construction (gate_blocks)")
+	// reach requirements are scheme-agnostic and conditional: they only apply when
+	// the tree has first-use code / blocking synchronisation at all (an eager init()
+	// has neither, and is a correct implementation)
+	if pb.stats["gate_calls"] > 0 && pb.stats["gate_blocks"] == 0 {
+		unreached = append(unreached, "a task reached a sync.Once/Mutex while another task was inside it (gate_blocks)")
 	}
-	if pb.stats["preempt_inside_once_closure"] == 0 {
-		unreached = append(unreached, "a pre-emption landed inside table construction")
+	if pb.stats["runs_with_first_use_code"] > 0 && pb.stats["preempt_inside_first_use_code"] == 0 {
+		unreached = append(unreached, "a pre-emption landed inside first-use-only code (table construction)")
 	}
 	var samples []interface{}
 	for _, s := range pb.samples {
@@ -427,13 +430,18 @@ func checkC18(ca *checkArgs) int {
 			"distinct_event_logs": len(pb.hashes),
 			"fault_kinds_fired": map[string]int64{
 				"preempt":                              pb.stats["switches"] + rb.stats["switches"],
-				"preempt_inside_table_construction":    pb.stats["preempt_inside_once_closure"] + rb.stats["preempt_inside_once_closure"],
+				"preempt_inside_first_use_code":        pb.stats["preempt_inside_first_use_code"] + rb.stats["preempt_inside_first_use_code"],
+				"preempt_inside_once_closure":          pb.stats["preempt_inside_once_closure"] + rb.stats["preempt_inside_once_closure"],
 				"first_use_attempt_while_construction_in_progress": pb.stats["gate_blocks"] + rb.stats["gate_blocks"],
 				"cold_process":                         int64(pb.runs + rb.runs),
 			},
 			"reach_probes": map[string]int64{
 				"tasks_total": pb.stats["tasks"] + rb.stats["tasks"],
 				"first_use_write_sites_checked": pb.stats["first_use_write_sites"] + rb.stats["first_use_write_sites"],
+				"runs_with_first_use_code":      pb.stats["runs_with_first_use_code"] + rb.stats["runs_with_first_use_code"],
+				"first_use_only_statements_cold_total":     pb.stats["first_use_only_statements_cold"] + rb.stats["first_use_only_statements_cold"],
+				"first_use_only_statements_repeated_total": pb.stats["first_use_only_statements_repeated"] + rb.stats["first_use_only_statements_repeated"],
+				"sync_gate_calls":               pb.stats["gate_calls"] + rb.stats["gate_calls"],
 			},
 			"data_race_reports":  len(rb.races),
 			"unreached_required": unreached,
